@@ -193,3 +193,27 @@ func TestD12(t *testing.T) {
 		t.Fatal(r)
 	}
 }
+
+// D13: an aggregate function that returns the list it was given must not make an earlier
+// result alias the pooled buffer.
+func TestD13(t *testing.T) {
+	var cfg jsonpath.Config
+	cfg.SetAggregateFunction("all", func(vs []interface{}) (interface{}, error) { return vs, nil })
+	f, err := jsonpath.Parse(`$[1:].all()`, cfg)
+	if err != nil {
+		t.Fatal(err)
+	}
+	r1, err := f([]interface{}{1.0, 1.0})
+	if err != nil {
+		t.Fatal(err)
+	}
+	before := fmt.Sprint(r1)
+	for i := 0; i < 4; i++ {
+		if _, err := f([]interface{}{2.0, 3.0, 4.0}); err != nil {
+			t.Fatal(err)
+		}
+	}
+	if after := fmt.Sprint(r1); after != before {
+		t.Fatalf("first result changed from %s to %s", before, after)
+	}
+}
